@@ -66,7 +66,7 @@ RULE = ('stream 1: one `dist` op per (class, size, deformation): model distance 
 
 # all-sizes distance theorems of the hand-modelled classes (built and axiom-audited with C17)
 ALLSIZES_CLASSES = ['Toric2DCode', 'Planar2DCode', 'RotatedPlanar2DCode', 'Toric3DCode', 'Planar3DCode',
-                    'RotatedPlanar3DCode', 'XCubeCode']
+                    'RotatedPlanar3DCode', 'XCubeCode', 'RhombicToricCode', 'RhombicPlanarCode']
 PROPERTY_MODULES = ['PanqecVerif.Properties.C17'] + [f'PanqecVerif.Properties.C17{c}' for c in ALLSIZES_CLASSES]
 
 # instances of the regenerated tables for which no certificate is expected (see LEVEL_NOTE)
